@@ -3,7 +3,7 @@
 # usage: seedcheck.sh <patch> <demo_test.go> [race]
 set -u
 PATCH=$1; DEMO=$2; RACE=${3:-}
-SV=/tmp/sv
+SV=${SV:-/tmp/sv}
 git -C /repo worktree remove --force $SV 2>/dev/null; rm -rf $SV
 git -C /repo worktree add -q --detach $SV HEAD || exit 9
 cd $SV
@@ -31,8 +31,8 @@ rm $dir/zz_seed_demo_test.go
 echo "== vstatic checks against the changed tree"
 cd /verif
 for p in $(python3 -c "import json;print(' '.join(c['property_id'] for c in json.load(open('/verif/MANIFEST.json'))['checks']))"); do
-  out=$(VSTATIC_REPO=$SV VSTATIC_EVIDENCE_DIR=/tmp/sv-evidence ./bin/vstatic check -property $p -tier quick 2>&1)
+  out=$(VSTATIC_REPO=$SV VSTATIC_EVIDENCE_DIR=$SV-evidence ./bin/vstatic check -property $p -tier quick 2>&1)
   rc=$?
   if [ $rc -ne 0 ]; then echo "--- $p exit=$rc"; echo "$out" | grep -E "^(VIOLATED|UNDECIDED|ANALYSIS-FAILURE|    key=)" | cut -c1-260 | head -8; fi
 done
-git -C /repo worktree remove --force $SV; rm -rf /tmp/sv-evidence
+git -C /repo worktree remove --force $SV; rm -rf $SV-evidence
